@@ -4,23 +4,18 @@ From Coq Require Import List Bool.
 Require Import TT.Model.Str TT.Model.C16Fs TT.Spec.C16Reserved.
 Import ListNotations.
 
-(* a history: for every run (is the run in recorded class 1 / 2 in the state it
-   starts from, its outcome, the file system after it) *)
-Fixpoint c16_steps (s : fs) (runs : list run) : list ((bool * bool) * (outcome * fs)) :=
+(* a history: for every run its outcome and the file system after it *)
+Fixpoint c16_steps (s : fs) (runs : list run) : list (outcome * fs) :=
   match runs with
   | [] => []
-  | r :: rest => let '(s', o) := exec r s in
-                 ((kf_C16_write_test r s, kf_C16_source_cleanup r s), (o, s')) :: c16_steps s' rest
+  | r :: rest => let '(s', o) := exec r s in (o, s') :: c16_steps s' rest
   end.
 
-Definition c16_kf_history (s : fs) (runs : list run) : bool := kf_C16_history runs s.
-
-(* the oracle on an observed change set, the offending paths with the class that explains each
-   (0 = none), and the name predicates *)
+(* the oracle on an observed change set, the offending paths, and the name predicates *)
 Definition c16_ok (out proj : path) (tgt : option path) (changed new_dirs gone_dirs : list path) : bool :=
   c16_ok_b out proj tgt changed new_dirs gone_dirs.
-Definition c16_bad (out proj : path) (tgt : option path) (changed : list path) : list (path * nat) :=
-  map (fun q => (q, c16_explained out proj q)) (c16_offending out proj tgt changed).
+Definition c16_bad (out proj : path) (tgt : option path) (changed : list path) : list path :=
+  c16_offending out proj tgt changed.
 Definition c16_reserved_name (n : str) : bool := reserved_name_b n.
 Definition c16_is_generated (managed : list str) (n : str) : bool := is_generated_file managed n.
 Definition c16_probe_path (out : path) : path := out ++ [n_probe].
@@ -29,4 +24,4 @@ Definition c16_probe_path (out : path) : path := out ++ [n_probe].
 Definition c16_depth (p : path) : nat := length p.
 
 Extraction Language OCaml.
-Extraction "tt_c16.ml" c16_steps c16_kf_history c16_ok c16_bad c16_reserved_name c16_is_generated c16_probe_path c16_depth.
+Extraction "tt_c16.ml" c16_steps c16_ok c16_bad c16_reserved_name c16_is_generated c16_probe_path c16_depth.
